@@ -219,7 +219,9 @@ async def _main(case, obs, loop, net):
                     elif t["n"] == proc.txn_no and t["end"] is None:
                         t.setdefault("failed_ends", []).append((kind, r["outcome"], r["t_call"]))
             elif kind in ("ctx_ok", "ctx_exc"):
-                class Boom(Exception):
+                # the body is left with an ordinary exception or with a BaseException (a cancelled task, a
+                # KeyboardInterrupt): either way the transaction must be aborted
+                class Boom(BaseException if (len(st) > 2 and st[2] == "base") else Exception):
                     pass
 
                 async def body():
